@@ -88,6 +88,29 @@ class Builtin:
         return '<Builtin %s>' % self.name
 
 
+class LazyIter:
+    """a generator object (generator expression, zip/enumerate over one): elements are produced -- and the effects of the
+    element expression happen -- when they are PULLED, in the order python pulls them"""
+
+    def __init__(self, gen, what):
+        self.gen, self.what, self.done = gen, what, False
+
+    def pull(self):
+        """python generator over the remaining elements (single use, like the real object)"""
+        for v in self.gen:
+            yield v
+        self.done = True
+
+    def materialise(self):
+        return list(self.pull())
+
+    def __repr__(self):
+        return '<generator %s>' % self.what
+
+
+LAZY_AWARE = ('zip', 'enumerate', 'map')
+
+
 class SuperProxy:
     def __init__(self, obj, after_cls):
         self.obj, self.after_cls = obj, after_cls
@@ -388,6 +411,12 @@ class Interp:
             self.depth -= 1
 
     def _call(self, fn, args, kwargs):
+        if any(isinstance(a, LazyIter) for a in args) or any(isinstance(a, LazyIter) for a in kwargs.values()):
+            f0 = fn.func if isinstance(fn, BoundMethod) else fn
+            keeps = isinstance(f0, (FuncRef, Closure, ClassRef)) or (isinstance(fn, Builtin) and fn.name in LAZY_AWARE)
+            if not keeps:       # every other consumer (list, tuple, sum, any, library functions, ...) exhausts the generator at the call
+                args = [a.materialise() if isinstance(a, LazyIter) else a for a in args]
+                kwargs = {k: (a.materialise() if isinstance(a, LazyIter) else a) for k, a in kwargs.items()}
         if isinstance(fn, Builtin):
             return fn.fn(self, args, kwargs)
         if isinstance(fn, BoundMethod):
@@ -759,8 +788,8 @@ class Interp:
 
     def st_For(self, st, frame):
         it = self.eval(st.iter, frame)
-        items = self.iter_values(it)
-        if isinstance(items, list):
+        items = it.pull() if isinstance(it, LazyIter) else self.iter_values(it)
+        if isinstance(items, list) or isinstance(it, LazyIter):
             broke = False
             for v in items:
                 self.assign(st.target, v, frame)
@@ -789,6 +818,8 @@ class Interp:
         """python list (concrete spine -> unrolled) or Seq (symbolic length)."""
         if isinstance(it, (list, tuple)):
             return list(it)
+        if isinstance(it, LazyIter):
+            return it.materialise()
         if isinstance(it, dict):
             return list(it.keys())
         if isinstance(it, RangeVal):
@@ -1086,8 +1117,9 @@ class Interp:
             g = gens[gi]
             if g.is_async:
                 raise Unsupported('async comprehension')
-            items = self.iter_values(self.eval(g.iter, fr))
-            if not isinstance(items, list):
+            itv = self.eval(g.iter, fr)
+            items = itv.pull() if isinstance(itv, LazyIter) else self.iter_values(itv)
+            if not isinstance(items, list) and not isinstance(itv, LazyIter):
                 raise _SymbolicGen(items)
             for v in items:
                 f2 = Frame(fr.module, parent=fr, func=fr.func, cls=fr.cls, qualname=fr.qualname)
@@ -1127,7 +1159,35 @@ class Interp:
         return self.comprehension(node, frame, lambda fr: self.eval(node.elt, fr))
 
     def ex_GeneratorExp(self, node, frame):
-        return self.comprehension(node, frame, lambda fr: self.eval(node.elt, fr))
+        """the outermost iterable is evaluated when the generator object is created (as python does); over a concrete spine the
+        elements are produced lazily (LazyIter); over a symbolic-length sequence the element expression is a map (see comprehension)"""
+        gens = node.generators
+        if any(g.is_async for g in gens):
+            raise Unsupported('async comprehension')
+        first = self.eval(gens[0].iter, frame)
+        items0 = first.pull() if isinstance(first, LazyIter) else self.iter_values(first)
+        if not isinstance(items0, list) and not isinstance(first, LazyIter):
+            return self.comprehension(node, frame, lambda fr: self.eval(node.elt, fr))
+        interp = self
+
+        def produce():
+            def rec(gi, fr, items):
+                g = gens[gi]
+                for v in items:
+                    f2 = Frame(fr.module, parent=fr, func=fr.func, cls=fr.cls, qualname=fr.qualname)
+                    interp.assign(g.target, v, f2)
+                    if not all(interp.branch(interp.eval(cond, f2), 'compif') for cond in g.ifs):
+                        continue
+                    if gi + 1 == len(gens):
+                        yield interp.eval(node.elt, f2)
+                    else:
+                        nxt = interp.eval(gens[gi + 1].iter, f2)
+                        nitems = nxt.pull() if isinstance(nxt, LazyIter) else interp.iter_values(nxt)
+                        if not isinstance(nitems, list) and not isinstance(nxt, LazyIter):
+                            raise Unsupported('generator expression nested over a symbolic-length sequence')
+                        yield from rec(gi + 1, f2, nitems)
+            yield from rec(0, frame, items0)
+        return LazyIter(produce(), 'expression at line %d' % node.lineno)
 
     def ex_DictComp(self, node, frame):
         pairs = self.comprehension(node, frame, lambda fr: (self.eval(node.key, fr), self.eval(node.value, fr)))
